@@ -129,7 +129,7 @@ class Outcome:
         return 1 if self.violations else 0
 
 
-def shard_validate(module, cfg_text, items, shards=14, workers=1, timeout=1800, tag="val", heap="2g"):
+def shard_validate(module, cfg_text, items, shards=14, workers=1, timeout=1800, tag="val", heap="2g", extra=None):
     """Validate a list of observed transitions with the trace spec `module`.
     Returns list of verdict strings aligned with items ('ok' or the failing clause).
     Every item must receive a verdict: TLC must report len(shard)+1 distinct states."""
@@ -146,7 +146,7 @@ def shard_validate(module, cfg_text, items, shards=14, workers=1, timeout=1800, 
         with open(path, "w") as fh:
             json.dump(chunks[s], fh)
         try:
-            res = run_tlc(module, cfg_text, workers=workers, timeout=timeout, env={"TRACE_FILE": path}, tag=tag, heap=heap, gcthreads=1)   # many small serial-GC JVMs: measured 4x faster here than parallel GC / big heaps
+            res = run_tlc(module, cfg_text, workers=workers, timeout=timeout, env={"TRACE_FILE": path}, tag=tag, heap=heap, gcthreads=1, extra_modules_dir=extra)   # many small serial-GC JVMs: measured 4x faster here than parallel GC / big heaps
         finally:
             os.unlink(path)
         if res.error:
